@@ -5972,8 +5972,9 @@ class Query(object):
                                for sql_row in cursor.fetchall() ]
                     for i, t in enumerate(translator.expr_type):
                         if isinstance(t, EntityMeta) and t._subclasses_: t._load_many_(row[i] for row in items)
-                if query_key is not None: cache.query_results[query_key] = items
+                if query_key is not None: cache.query_results[query_key] = items[:]  # the caller's QueryResult may reverse / sort / shuffle its list
             else:
+                items = items[:]
                 stats = database._dblocal.stats
                 stat = stats.get(sql)
                 if stat is not None: stat.cache_count += 1
